@@ -51,6 +51,8 @@ func (goHolder) Boom() *goHolder {
 }
 
 // the same field name at different positions of two struct types reached through one interface-typed field
+type langKey string
+
 type petCat struct{ Name, Sound string }
 type petDog struct{ Owner, Name string }
 type petHolder struct{ Pet interface{} }
@@ -246,6 +248,8 @@ func decodeVal(x *sx.Sexp) interface{} {
 			return goHolder{Arr: [2]string{"x<", "y"}}
 		case "ifacemap":
 			return map[interface{}]int{1: 10, "a": 11, [2]int{1, 2}: 12}
+		case "langmap":
+			return map[langKey]string{"en": "Hello<", "de": "Hallo"}
 		case "nanmap1":
 			return map[float64]string{math.NaN(): "n<"}
 		case "nanmap2":
